@@ -99,3 +99,25 @@ Section Example.
       end
     end.
 End Example.
+
+(* the bytes the builder writes: '{' then for every written member (',' unless it is the first) key ':' value, '}' *)
+Definition key_text : list N := [34; 107; 34]%N.      (* "k": the key's own text is C03's subject *)
+Fixpoint render (x : ex) : list N :=
+  match x with
+  | XLit => [49%N]
+  | XArr l => [91%N] ++ (fix go (first : bool) (l : list ex) : list N :=
+                           match l with
+                           | [] => []
+                           | m :: r => (if first then [] else [44%N]) ++ render m ++ go false r
+                           end) true l ++ [93%N]
+  | XObj l => [123%N] ++ (fix go (first : bool) (l : list ex) : list N :=
+                            match l with
+                            | [] => []
+                            | m :: r => (if first then [] else [44%N]) ++ key_text ++ [58%N] ++ render m ++ go false r
+                            end) true l ++ [125%N]
+  end.
+Fixpoint sz (n : node) : nat :=
+  match n with
+  | NLit _ _ | NRef _ _ _ => 1
+  | NArr _ _ l | NObj _ _ l => S (fold_right (fun c a => sz c + a) 0 l)
+  end.
